@@ -78,7 +78,7 @@ def extract(repo, outdir):
         src, flags = item
         out = os.path.join(outdir, src.replace("/", "_") + ".json")
         cmd = [NVFACTS, os.path.join(repo, src), "-o", out, "--"] + flags + [
-            "-std=gnu17", "-UNDEBUG", "-w", "-resource-dir", resource_dir()]
+            "-std=gnu17", "-UNDEBUG", "-w", "-D__NO_CTYPE", "-resource-dir", resource_dir()]
         r = subprocess.run(cmd, capture_output=True, text=True)
         if r.returncode != 0 or not os.path.exists(out):
             raise AnalysisBroken("unit %s failed to parse: %s" % (src, r.stderr[-600:]))
